@@ -1516,7 +1516,9 @@ class CParser:
             type=decl or c_ast.TypeDecl(None, None, None, None),
             coord=spec_coord,
         )
-        return self._fix_decl_name_type(decl, spec["type"])
+        return fix_atomic_specifiers(
+            cast(Any, self._fix_decl_name_type(decl, spec["type"]))
+        )
 
     # BNF: identifier_list_opt : identifier_list | empty
     def _parse_identifier_list_opt(self) -> Optional[c_ast.Node]:
@@ -1553,7 +1555,10 @@ class CParser:
             type=decl or c_ast.TypeDecl(None, None, None, None),
             coord=coord,
         )
-        return cast(c_ast.Typename, self._fix_decl_name_type(typename, spec["type"]))
+        typename = self._fix_decl_name_type(typename, spec["type"])
+        # "_Atomic(T)" as the specifier of a type name means "_Atomic T" here
+        # as well (sizeof(_Atomic(int)), casts, abstract parameters).
+        return cast(c_ast.Typename, fix_atomic_specifiers(cast(Any, typename)))
 
     # BNF: abstract_declarator_opt : pointer? direct_abstract_declarator?
     def _parse_abstract_declarator_opt(self) -> Optional[c_ast.Node]:
